@@ -5,7 +5,7 @@ package database
 func c11Search(nlp bool) {
 	db := c04DB(false) // index and re-ranker built, as every loader leaves them
 	q := vWord("q", 2)
-	o := SearchOptions{Limit: verifIntRange("limit", 1, 3), UseNLP: nlp, UseFuzzy: verifBool("fuzzy"), AllPlatforms: verifBool("allPlatforms")}
+	o := SearchOptions{Limit: verifIntRange("limit", 1, 3), UseNLP: nlp, UseFuzzy: verifBool("fuzzy"), AllPlatforms: verifBool("allPlatforms"), PipelineOnly: verifBool("pipelineOnly")}
 	if verifBool("boosts") {
 		o.ContextBoosts = map[string]float64{"aa": 2}
 	}
